@@ -224,6 +224,9 @@ class Run:
       elif cur is not None:
         cur.append(r)
     if len(segs) != len(results):
+      import os
+      if os.environ.get("VF_DEBUG"):
+        print("DESYNC segs", len(segs), "results", len(results), [r for r in o.extra["raw"] if r[0] in ("step",)], [ (x[0], x[1]["kind"]) for x in results])
       raise Desync()
     steps = []
     for seg, (ev, res, refl) in zip(segs, results):
